@@ -32,9 +32,10 @@ case "$CMD" in
       *) BIN=vh-comp ;;
     esac
     cd "$L/verif/harness"
-    if ! CARGO_NET_OFFLINE=true cargo build --release --offline -p "$BIN" >"$L/build.log" 2>&1; then
+    B=$(echo "$ID" | tr 'A-Z' 'a-z')
+    if ! CARGO_NET_OFFLINE=true cargo build --release --offline -p "$BIN" --bin "$B" >"$L/build.log" 2>&1; then
       echo "MACHINERY-FAILURE: lab build failed"; tail -30 "$L/build.log"; exit 2; fi
-    VH_VERIF_ROOT="$L/verif" VH_REPO_ROOT="$L/repo" exec "$L/target/release/$BIN" check "$ID" --tier "$TIER";;
+    VH_VERIF_ROOT="$L/verif" VH_REPO_ROOT="$L/repo" exec "$L/target/release/$B" check "$ID" --tier "$TIER";;
   destroy)
     git -C /repo worktree remove --force "$L/repo" 2>/dev/null || true
     rm -rf "$L"; git -C /repo worktree prune;;
